@@ -9,7 +9,6 @@ from harness.histgen import shrink_list
 ID = 'C15'
 TITLE = 'Trigger formulas recalculate exactly when configured'
 PROPS = ['Props/C15']
-DISABLED = True
 
 # ------------------------------------------------------------------------------------------------
 # The document: one table T, columns numbered as in Model/Trigger.v
